@@ -1,6 +1,6 @@
 from ural.data import ISO_3166_1_COUNTRIES_ALPHA_2
 from ural.normalize_url import normalize_url, normalize_hostname
-from ural.utils import SplitResult, urlunsplit, urlsplit, unsplit_netloc
+from ural.utils import SplitResult, urlunsplit, urlsplit, unsplit_netloc, lowercase
 from ural.infer_redirection import infer_redirection as resolve
 from ural.ensure_protocol import ensure_protocol
 from ural.tld import split_suffix
@@ -34,7 +34,7 @@ def strip_lang_subdomains_from_hostname(hostname):
 
 
 def fingerprint_hostname(hostname, strip_suffix=False):
-    hostname = normalize_hostname(hostname)
+    hostname = lowercase(normalize_hostname(hostname))
 
     # NOTE: same order as `fingerprint_url`, the lang subdomain test needs the suffix
     hostname = strip_lang_subdomains_from_hostname(hostname)
@@ -54,7 +54,7 @@ def fingerprint_hostname(hostname, strip_suffix=False):
 def get_fingerprinted_hostname(url, infer_redirection=True, strip_suffix=False):
     # NOTE: fingerprint_url lowercases the url before anything else
     if not isinstance(url, SplitResult):
-        url = url.lower()
+        url = lowercase(url)
 
     if infer_redirection:
         url = resolve(url)
@@ -75,7 +75,7 @@ def get_fingerprinted_hostname(url, infer_redirection=True, strip_suffix=False):
 
 
 def fingerprint_url(url, unsplit=True, strip_suffix=False, platform_aware=False):
-    url = url.lower()
+    url = lowercase(url)
 
     splitted = normalize_url(
         url,
